@@ -429,7 +429,7 @@ pub open spec fn step_allow(s: Raw, t: Raw, sender: Seq<char>, allow: AllowMsg) 
     old: Option<AllowInfo>
 @closure 1 C18.allow_closure
     (res: Result<AllowInfo, ContractError>)
-    ensures res is Ok ==> (old is Some ==> limit_loosened(old->Some_0.gas_limit, set.gas_limit)) && res->Ok_0 == (AllowInfo { gas_limit: allow.gas_limit })
+    ensures res is Ok ==> (old is Some ==> limit_loosened(old->Some_0.gas_limit, allow.gas_limit)) && res->Ok_0 == (AllowInfo { gas_limit: allow.gas_limit })
 @prefix
     broadcast use ics_axioms;
 @end
